@@ -47,7 +47,7 @@ PROPS = {
             ('codec', r'ZmqMechanism as TryFrom', A, None),
             ('codec', r'ZmqCommand as TryFrom', A, None),
             ('codec', r'^ZmqMessage::push_back$|ZmqMessage as From<Bytes>', A, None),
-            ('codec', r'^tmpl::lemma_(roundtrip|rfc_msg|be64)', A, None),
+            ('codec', r'^tmpl::lemma_(roundtrip|be64|flags)', A, None),
         ],
         'kani': {
             'quick': [('greeting_ser', 'complete'), ('greeting_default', 'complete'), ('mech_parse', 'complete')],
@@ -62,15 +62,16 @@ PROPS = {
             ('codec', r'^ZmqCodec::decode$', F, r'^(?!bm_reserved)'),
             ('codec', r'^ZmqCodec::new$', A, None),
             ('codec', r'^ZmqMessage::push_back$|ZmqMessage as From<Bytes>', A, None),
-            ('codec', r'^tmpl::lemma_(seg|run)_', A, None),
+            ('codec', r'^tmpl::(lemma_seg_|lemma_step_progress|rfc_drain_decreases)', A, None),
         ],
         'kani': {},
         'assumptions': [],
         'not_covered': [],
     },
     'C04': {
-        'units': ['handshake'],
+        'units': ['handshake', 'codec'],
         'scope': [
+            ('codec', r'ZmqGreeting as TryFrom', A, None),
             ('handshake', r'^SocketType::compatible$', A, None),
             ('handshake', r'^SocketType::as_str$|SocketType as TryFrom', A, None),
             ('handshake', r'PeerIdentity as TryFrom<Bytes>|PeerIdentity as Default|^PeerIdentity::new$', A, None),
@@ -135,8 +136,11 @@ PROPS = {
         'not_covered': ['interleavings of concurrent clients as such: the contracts say each call pairs request and reply by peer identity whatever other calls did'],
     },
     'C09': {
-        'units': ['routing'],
+        'units': ['routing', 'handshake'],
         'scope': [
+            # provenance of the identity a peer is registered under (announced in READY, or generated)
+            ('handshake', r'^ready_exchange$|^util::peer_connected$', A, None),
+            ('handshake', r'PeerIdentity as TryFrom<Bytes>|PeerIdentity as Default', A, None),
             ('routing', r'^RouterSocket::', A, None),
             ('routing', r'^GenericSocketBackend::peer_(connected|disconnected)$', A, None),
             ('routing', r'PeerIdentity as TryFrom<Bytes>|Bytes as From<PeerIdentity>|^PeerIdentity::|PeerIdentity as Clone', A, None),
